@@ -31,10 +31,14 @@ func (zr *ZstdReader) Read(p []byte) (n int, err error) {
 }
 
 func (zr *ZstdReader) Close() error {
+	// Close the body first: zstd.Decoder.Close waits for the decoder's stream
+	// goroutine, which may be blocked in Body.Read for as long as the server
+	// stays silent; closing the body ends that Read.
+	err := zr.Body.Close()
 	if zr.zr != nil {
 		zr.zr.Close()
 	}
-	return zr.Body.Close()
+	return err
 }
 
 func (zr *ZstdReader) GetUnderlyingBody() io.ReadCloser {
